@@ -1,9 +1,472 @@
 /-
-  QEModel.C18 — executable model for property C18 (stub; to be filled in).
+  QEModel.C18 — random generators: the deterministic kernels that turn a stream of
+  uniform / integer draws into the generated object.  Every random draw is an explicit
+  input (the harness records what the real code consumed and hands it over).
+
+  Mirrors:
+    quantecon/random/utilities.py      _probvec (66-92), probvec (49-63),
+                                       _sample_without_replacement (155-170)
+    quantecon/markov/random.py         _random_stochastic_matrix (106-142)
+    quantecon/_graph_tools.py          _populate_random_tournament_row_col (417-443)
+    quantecon/game_theory/game_generators/bimatrix_generators.py
+                                       _populate_blotto_payoff_arrays (171-202),
+                                       ranking_game/_populate_ranking_payoff_arrays (255-308),
+                                       _populate_sgc_payoff_arrays (358-396),
+                                       _populate_tournament_payoff_array0/1 (477-533),
+                                       unit_vector_game (592-615)
+    quantecon/game_theory/random.py    _random_mixed_actions (183-206)
+    quantecon/util/random.py           check_random_state (36-43)
 -/
 import QEModel.Base
+import QEModel.C16
 namespace QE.C18
 
-def handle (_toks : List String) : String := "bad-op"
+/-! ### probvec : sort, spacings, `1 - r[n-1]` -/
+
+section probvec
+variable {α : Type} [One α] [Sub α] [LE α] [DecidableLE α]
+
+/-- `for i in range(1, n): out[i] = r[i] - r[i-1]` followed by `out[n] = 1 - r[n-1]`;
+    `prev` is `r[i-1]`. -/
+def spacings (prev : α) : List α → List α
+  | [] => [1 - prev]
+  | x :: xs => (x - prev) :: spacings x xs
+
+/-- body of `_probvec` after `r.sort()`: `out[0] = r[0]`, then the spacings.
+    (`n = 0` cannot reach the kernel: `probvec` returns early for `k = 1`.) -/
+def probvecSorted : List α → List α
+  | [] => []
+  | x :: xs => x :: spacings x xs
+
+/-- `r.sort()` (ascending; the sorted arrangement of a list of non-NaN doubles is unique) -/
+def sortAsc (r : List α) : List α := r.mergeSort (fun a b => decide (a ≤ b))
+
+/-- one row of `_probvec(r, out)` -/
+def probvecRow (r : List α) : List α := probvecSorted (sortAsc r)
+
+/-- `probvec(m, k, …)` given the `(m, k-1)` uniforms it drew (none for `k = 1`) -/
+def probvec (m k : Nat) (r : List (List α)) : List (List α) :=
+  if k = 1 then List.replicate m [1] else r.map probvecRow
+
+end probvec
+
+/-! ### sample_without_replacement : pool swap -/
+
+/-- `for j in range(k): out[j] = pool[idx]; pool[idx] = pool[n-j-1]` with the integer
+    `idx_j` of each iteration given. -/
+def swrLoop (n : Nat) : Nat → List Nat → List Nat → List Nat
+  | _, _, [] => []
+  | j, pool, idx :: rest =>
+    pool.getD idx 0 :: swrLoop n (j + 1) (pool.set idx (pool.getD (n - j - 1) 0)) rest
+
+/-- `_sample_without_replacement(n, r, out)` as a function of the indices
+    `idx_j = floor(r[j] * (n-j))` -/
+def swr (n : Nat) (idxs : List Nat) : List Nat := swrLoop n 0 (List.range n) idxs
+
+/-- `np.intp(np.floor(r[j] * (n-j)))` in double arithmetic, `j = j0, j0+1, …` -/
+def idxsFloat (n : Nat) : Nat → List Float → List Nat
+  | _, [] => []
+  | j, r :: rest => (Float.floor (r * Float.ofNat (n - j))).toUInt64.toNat :: idxsFloat n (j + 1) rest
+
+/-- the same in exact rational arithmetic -/
+def idxsRat (n : Nat) : Nat → List Rat → List Nat
+  | _, [] => []
+  | j, r :: rest => (r * ((n - j : Nat) : Rat)).floor.toNat :: idxsRat n (j + 1) rest
+
+/-! ### _random_stochastic_matrix : k-sparse rows at sampled columns -/
+
+section place
+variable {α : Type} [Zero α]
+
+/-- `P = zeros(n); P[cols] = data` for one row (later writes win, as in NumPy) -/
+def placeRow (n : Nat) (cols : List Nat) (data : List α) : List α :=
+  (cols.zip data).foldl (fun row cv => row.set cv.1 cv.2) (List.replicate n 0)
+
+/-- dense `_random_stochastic_matrix(m, n, k)` from the rows of `probvec(m, k)` and the
+    column samples (`k < n`), or the probability vectors themselves (`k = n`) -/
+def stochDense (n k : Nat) (pv : List (List α)) (cols : List (List Nat)) : List (List α) :=
+  if k = n then pv else (pv.zip cols).map fun pc => placeRow n pc.2 pc.1
+
+/-- stored entries `(col, value)` of one row of the CSR form: all `k` triplets of the COO
+    input (explicit zeros included), ordered by column (`k < n`) -/
+def sparseRow (cols : List Nat) (data : List α) : List (Nat × α) :=
+  (cols.zip data).mergeSort (fun a b => decide (a.1 ≤ b.1))
+
+end place
+
+/-! ### random_discrete_dp : the state-action pairs of the rows of `Q` -/
+
+/-- `sa_indices(num_states, num_actions)` (the double loop `for s: for a:`), as pairs `(s, a)`;
+    row `r` of the `(L, n)` matrix `Q` belongs to the `r`-th pair -/
+def saIndices (ns na : Nat) : List (Nat × Nat) :=
+  (List.range ns).flatMap fun s => (List.range na).map fun a => (s, a)
+
+/-- the pair that the C-order reshape `Q.shape = (ns, na, ns)` assigns to row `r` -/
+def reshapeIndex (na r : Nat) : Nat × Nat := (r / na, r % na)
+
+/-! ### random_tournament_graph -/
+
+/-- the pairs `(i, j)`, `i < j < n`, in the order of the double loop -/
+def tournPairs (n : Nat) : List (Nat × Nat) :=
+  (List.range n).flatMap fun i => (List.range' (i + 1) (n - (i + 1))).map fun j => (i, j)
+
+/-- `if r[k] < 0.5: (i, j) else (j, i)` with `b = (r[k] < 0.5)` -/
+def orient (p : Nat × Nat) (b : Bool) : Nat × Nat := if b then p else (p.2, p.1)
+
+def tournEdges (n : Nat) (bs : List Bool) : List (Nat × Nat) :=
+  List.zipWith orient (tournPairs n) bs
+
+/-- successors of node `i` in increasing order (= `indices[indptr[i]:indptr[i+1]]` of the
+    canonical CSR adjacency matrix) -/
+def succOf (n : Nat) (edges : List (Nat × Nat)) (i : Nat) : List Nat :=
+  (List.range n).filter fun j => edges.contains (i, j)
+
+def belowHalf {α : Type} [One α] [Add α] [Div α] [LT α] [DecidableLT α] (r : List α) : List Bool :=
+  r.map fun x => decide (x < 1 / (1 + 1))
+
+/-! ### Blotto -/
+
+section blotto
+variable {α : Type} [Zero α] [One α] [Add α] [Div α]
+
+/-- inner loop over the hills for the pair of actions `(ai, aj)`:
+    state `(payoffs[0], payoffs[1])` -/
+def blottoPair (ai aj : List Nat) (values : List (α × α)) : α × α :=
+  ((ai.zip aj).zip values).foldl (fun (p : α × α) xv =>
+    let x := xv.1.1; let y := xv.1.2; let v := xv.2
+    if x = y then (p.1 + v.1 / (1 + 1), p.2 + v.2 / (1 + 1))
+    else if x < y then (p.1, p.2 + v.2)     -- winner = 1
+    else (p.1 + v.1, p.2)) (0, 0)
+
+/-- `payoff_arrays[0][i, j]` -/
+def blotto0 (actions : List (List Nat)) (values : List (α × α)) : List (List α) :=
+  actions.map fun ai => actions.map fun aj => (blottoPair ai aj values).1
+
+/-- `payoff_arrays[1][j, i]` (player 1's own action first) -/
+def blotto1 (actions : List (List Nat)) (values : List (α × α)) : List (List α) :=
+  actions.map fun aj => actions.map fun ai => (blottoPair ai aj values).2
+
+end blotto
+
+/-! ### ranking game -/
+
+/-- `cumsum` -/
+def cumsumNat : Nat → List Nat → List Nat
+  | _, [] => []
+  | acc, x :: xs => (acc + x) :: cumsumNat (acc + x) xs
+
+section ranking
+variable {α : Type} [Zero α] [One α] [Add α] [Neg α] [Div α]
+
+/-- the value written by the first double loop: `0` in row 0, `-costs[p, i-1]` below -/
+def rankBase (costs : List α) (i : Nat) : α := if i = 0 then 0 else - costs.getD (i - 1) 0
+
+/-- `payoff_arrays[0][i, j]` given the cumulative scores `s0`, `s1` and player 0's costs -/
+def rank0 (s0 s1 : List Nat) (c0 : List α) (i j : Nat) : α :=
+  if s0.getD i 0 > s1.getD j 0 then rankBase c0 i + 1
+  else if s0.getD i 0 < s1.getD j 0 then rankBase c0 i
+  else rankBase c0 i + 1 / (1 + 1)
+
+/-- `payoff_arrays[1][j, i]` -/
+def rank1 (s0 s1 : List Nat) (c1 : List α) (j i : Nat) : α :=
+  if s0.getD i 0 > s1.getD j 0 then rankBase c1 j
+  else if s0.getD i 0 < s1.getD j 0 then rankBase c1 j + 1
+  else rankBase c1 j + 1 / (1 + 1)
+
+/-- `costs.cumsum(); costs /= n*steps` through the injection `ofN` of the integers -/
+def rankCosts (ofN : Nat → α) (n steps : Nat) (draws : List Nat) : List α :=
+  (cumsumNat 0 draws).map fun c => ofN c / ofN (n * steps)
+
+def rankingGame (ofN : Nat → α) (n steps : Nat) (sd0 sd1 cd0 cd1 : List Nat) :
+    List (List α) × List (List α) :=
+  let s0 := cumsumNat 0 sd0
+  let s1 := cumsumNat 0 sd1
+  let c0 := rankCosts ofN n steps cd0
+  let c1 := rankCosts ofN n steps cd1
+  ((List.range n).map fun i => (List.range n).map fun j => rank0 s0 s1 c0 i j,
+   (List.range n).map fun j => (List.range n).map fun i => rank1 s0 s1 c1 j i)
+
+end ranking
+
+/-! ### SGC game : a sequence of overwrites of a `(4k-1) × (4k-1)` array -/
+
+section sgc
+variable {α : Type} [Zero α] [One α] [Add α] [Div α]
+
+/-- NumPy index of a (possibly negative) integer into an axis of length `n` -/
+def wrapIdx (n : Nat) (i : Int) : Nat := if i < 0 then (i + n).toNat else i.toNat
+
+/-- `A[i, j] = v` on a matrix given as a function -/
+def upd (A : Nat → Nat → α) (i j : Nat) (v : α) : Nat → Nat → α :=
+  fun a b => if a = i ∧ b = j then v else A a b
+
+def c34 : α := (1 + 1 + 1) / (1 + 1 + 1 + 1)
+def c12 : α := 1 / (1 + 1)
+
+/-- the three region loops -/
+def sgcRegions (m : Nat) : Nat → Nat → α := fun i j =>
+  if i < m then (if j < m then c34 else c12) else 0
+
+/-- the part common to both players (first `for payoff_array in payoff_arrays` loop) -/
+def sgcCommon (n : Nat) : Nat → Nat → α :=
+  let m := (n + 1) / 2 - 1
+  let A0 : Nat → Nat → α := sgcRegions m
+  let A1 := upd A0 0 (wrapIdx n ((m : Int) - 1)) 1
+  let A2 := upd A1 0 1 c12
+  let A3 := (List.range' 1 (m - 2)).foldl (fun A i => upd (upd A i (i - 1) 1) i (i + 1) c12) A2
+  let A4 := upd A3 (wrapIdx n ((m : Int) - 1)) (wrapIdx n ((m : Int) - 2)) 1
+  upd A4 (wrapIdx n ((m : Int) - 1)) 0 c12
+
+/-- the `for h in range(k)` loop, player 0: `A[i, j] = A[i+1, j+1] = 0.75`, `i = j = m + 2h` -/
+def sgcPairs0 (m k : Nat) (A : Nat → Nat → α) : Nat → Nat → α :=
+  (List.range k).foldl (fun A h => upd (upd A (m + 2 * h) (m + 2 * h) c34) (m + 2 * h + 1) (m + 2 * h + 1) c34) A
+
+/-- player 1: `A[j, i+1] = A[j+1, i] = 0.75` -/
+def sgcPairs1 (m k : Nat) (A : Nat → Nat → α) : Nat → Nat → α :=
+  (List.range k).foldl (fun A h => upd (upd A (m + 2 * h) (m + 2 * h + 1) c34) (m + 2 * h + 1) (m + 2 * h) c34) A
+
+def sgcEntry0 (k : Nat) : Nat → Nat → α :=
+  let n := 4 * k - 1
+  let m := (n + 1) / 2 - 1
+  sgcPairs0 m ((m + 1) / 2) (sgcCommon n)
+
+def sgcEntry1 (k : Nat) : Nat → Nat → α :=
+  let n := 4 * k - 1
+  let m := (n + 1) / 2 - 1
+  sgcPairs1 m ((m + 1) / 2) (sgcCommon n)
+
+def tabulate (n m : Nat) (f : Nat → Nat → α) : List (List α) :=
+  (List.range n).map fun i => (List.range m).map fun j => f i j
+
+end sgc
+
+/-! ### tournament game -/
+
+section tgame
+variable {α : Type} [Zero α] [One α]
+
+/-- `while a[-1] < d: X = indices[indptr[i]+a]; row[rank(X)] = 1; a = next_k_array(a)` -/
+def tg0Loop (d : Nat) (succ : List Nat) : Nat → List Nat → List α → List α
+  | 0, _, row => row
+  | fuel + 1, a, row =>
+    if a.getD (a.length - 1) 0 < d then
+      let X := a.map fun t => succ.getD t 0
+      tg0Loop d succ fuel (QE.C16.nextKArray a) (row.set (QE.C16.kArrayRank X) 1)
+    else row
+
+/-- row `i` of `payoff_arrays[0]` (length `m = C(n,k)`); `succ` = successors of node `i` -/
+def tg0Row (m k : Nat) (succ : List Nat) : List α :=
+  let d := succ.length
+  if d ≥ k then tg0Loop d succ (m + 1) (List.range k) (List.replicate m 0)
+  else List.replicate m 0
+
+/-- rows of `payoff_arrays[1]`: row `j` is the indicator of the `j`-th `k`-subset -/
+def tg1Rows (n : Nat) : Nat → List Nat → List (List α)
+  | 0, _ => []
+  | rem + 1, X => (X.foldl (fun row x => row.set x 1) (List.replicate n 0)) :: tg1Rows n rem (QE.C16.nextKArray X)
+
+def tournamentGame (n k : Nat) (bs : List Bool) : List (List α) × List (List α) :=
+  let m := QE.C16.chooseFast n k
+  let edges := tournEdges n bs
+  ((List.range n).map fun i => tg0Row m k (succOf n edges i), tg1Rows n m (List.range k))
+
+end tgame
+
+/-! ### unit vector game -/
+
+section uv
+variable {α : Type} [Zero α] [One α] [LT α] [DecidableLT α]
+
+/-- `payoff_arrays[0][ones_ind, arange(n)] = 1` -/
+def uvPlain (n : Nat) (ones : List Nat) : List (List α) :=
+  (List.range n).map fun r => (List.range n).map fun c => if ones.getD c n = r then 1 else 0
+
+/-- column maxima of player 1's array -/
+def colMax (P : List (List α)) (c : Nat) : α :=
+  P.foldl (fun mx row => if mx < row.getD c 0 then row.getD c 0 else mx) ((P.headD []).getD c 0)
+
+/-- `is_suboptimal[a, b] = P[a, b] < maxes[b]` -/
+def isSubopt (P : List (List α)) (a b : Nat) : Bool :=
+  decide ((P.getD a []).getD b 0 < colMax P b)
+
+/-- `one_ind = draw; while not is_suboptimal[i, one_ind]: one_ind = draw`: returns the accepted
+    index and the remaining draws, `none` when the draws run out -/
+def uvPick (P : List (List α)) (i : Nat) : List Nat → Option (Nat × List Nat)
+  | [] => none
+  | d :: rest => if isSubopt P i d then some (d, rest) else uvPick P i rest
+
+/-- the `for i in range(n)` loop: accepted indices `ones[i]` -/
+def uvAvoidOnes (P : List (List α)) : List Nat → List Nat → Option (List Nat × List Nat)
+  | [], draws => some ([], draws)
+  | i :: is, draws =>
+    match uvPick P i draws with
+    | none => none
+    | some (d, rest) =>
+      match uvAvoidOnes P is rest with
+      | none => none
+      | some (ds, rest') => some (d :: ds, rest')
+
+/-- `(nums_suboptimal == 0).any()`: some row of player 1's array is nowhere suboptimal -/
+def uvMustRedraw (n : Nat) (P : List (List α)) : Bool :=
+  (List.range n).any fun a => (List.range n).all fun b => !isSubopt P a b
+
+end uv
+
+/-! ### check_random_state : three-way case split -/
+
+inductive Seed | none | int | randomState | generator | other
+deriving DecidableEq, Repr
+
+inductive RngOut | global | fresh | same | valueError
+deriving DecidableEq, Repr
+
+def checkRandomState : Seed → RngOut
+  | .none => .global
+  | .int => .fresh
+  | .randomState => .same
+  | .generator => .same
+  | .other => .valueError
+
+/-! ### line protocol -/
+
+open QE
+
+def pairsOf {β : Type} (m : List (List β)) : Option (List (β × β)) :=
+  m.mapM fun r => match r with
+    | [a, b] => some (a, b)
+    | _ => none
+
+def showEdges (e : List (Nat × Nat)) : String :=
+  showList (fun (p : Nat × Nat) => toString p.1 ++ ">" ++ toString p.2) e
+
+def floatOfNat (n : Nat) : Float := Float.ofNat n
+
+def handle (toks : List String) : String :=
+  match toks with
+  | "probvec" :: r =>
+    match kvNat r "m", kvNat r "k", kvFloatMat r "r" with
+    | some m, some k, some rr =>
+      if k = 0 ∨ (k ≥ 2 ∧ (rr.length ≠ m ∨ rr.any (fun row => row.length ≠ k - 1))) then "bad-op"
+      else showMat showFloatBits (probvec m k rr)
+    | _, _, _ => "bad-op"
+  | "probvecq" :: r =>
+    match kvNat r "m", kvNat r "k", kvRatMat r "r" with
+    | some m, some k, some rr =>
+      if k = 0 ∨ (k ≥ 2 ∧ (rr.length ≠ m ∨ rr.any (fun row => row.length ≠ k - 1))) then "bad-op"
+      else showMat showRat (probvec m k rr)
+    | _, _, _ => "bad-op"
+  | "swr" :: r =>
+    match kvNat r "n", kvFloats r "r" with
+    | some n, some rs => if n = 0 ∨ rs.length > n then "ERR:ValueError" else
+        showList toString (swr n (idxsFloat n 0 rs))
+    | _, _ => "bad-op"
+  | "swrq" :: r =>
+    match kvNat r "n", kvRats r "r" with
+    | some n, some rs => if n = 0 ∨ rs.length > n then "ERR:ValueError" else
+        showList toString (swr n (idxsRat n 0 rs))
+    | _, _ => "bad-op"
+  | "swri" :: r =>
+    match kvNat r "n", kvNats r "idx" with
+    | some n, some ix => showList toString (swr n ix)
+    | _, _ => "bad-op"
+  | "stoch" :: r =>
+    -- r1 : (m, k-1) uniforms of probvec, r2 : (m, k) uniforms of the column sampler (k < n)
+    match kvNat r "m", kvNat r "n", kvNat r "k", kvFloatMat r "r1", kvFloatMat r "r2", kv r "out" with
+    | some m, some n, some k, some r1, some r2, some out =>
+      if k = 0 ∨ k > n then "bad-op" else
+      let pv := probvec m k r1
+      let cols := r2.map fun row => swr n (idxsFloat n 0 row)
+      if out = "dense" then showMat showFloatBits (stochDense n k pv cols)
+      else if out = "csr" ∧ k < n then
+        ";".intercalate ((pv.zip cols).map fun pc =>
+          showList (fun (cv : Nat × Float) => toString cv.1 ++ ":" ++ showFloatBits cv.2) (sparseRow pc.2 pc.1))
+      else "bad-op"
+    | _, _, _, _, _, _ => "bad-op"
+  | "tourn" :: r =>
+    match kvNat r "n", kvFloats r "r" with
+    | some n, some rs =>
+      if rs.length ≠ n * (n - 1) / 2 then "bad-op" else
+      let e := tournEdges n (belowHalf rs)
+      showEdges e ++ " | " ++ showMat toString ((List.range n).map (succOf n e))
+    | _, _ => "bad-op"
+  | "blotto" :: r =>
+    match kvNat r "h", kvNat r "t", kvFloatMat r "values" with
+    | some h, some t, some vm =>
+      match QE.C16.simplexGrid h t, pairsOf vm with
+      | some actions, some values =>
+        if values.length ≠ h then "bad-op" else
+        showMat showFloatBits (blotto0 actions values) ++ " | " ++ showMat showFloatBits (blotto1 actions values)
+      | _, _ => "bad-op"
+    | _, _, _ => "bad-op"
+  | "blottoq" :: r =>
+    match kvNat r "h", kvNat r "t", kvRatMat r "values" with
+    | some h, some t, some vm =>
+      match QE.C16.simplexGrid h t, pairsOf vm with
+      | some actions, some values =>
+        if values.length ≠ h then "bad-op" else
+        showMat showRat (blotto0 actions values) ++ " | " ++ showMat showRat (blotto1 actions values)
+      | _, _ => "bad-op"
+    | _, _, _ => "bad-op"
+  | "ranking" :: r =>
+    match kvNat r "n", kvNat r "steps", kvNatMat r "s", kvNatMat r "c" with
+    | some n, some steps, some [sd0, sd1], some [cd0, cd1] =>
+      if sd0.length ≠ n ∨ sd1.length ≠ n ∨ cd0.length ≠ n - 1 ∨ cd1.length ≠ n - 1 then "bad-op" else
+      let g := rankingGame floatOfNat n steps sd0 sd1 cd0 cd1
+      showMat showFloatBits g.1 ++ " | " ++ showMat showFloatBits g.2
+    | _, _, _, _ => "bad-op"
+  | "rankingq" :: r =>
+    match kvNat r "n", kvNat r "steps", kvNatMat r "s", kvNatMat r "c" with
+    | some n, some steps, some [sd0, sd1], some [cd0, cd1] =>
+      if sd0.length ≠ n ∨ sd1.length ≠ n ∨ cd0.length ≠ n - 1 ∨ cd1.length ≠ n - 1 then "bad-op" else
+      let g := rankingGame (fun (c : Nat) => (c : Rat)) n steps sd0 sd1 cd0 cd1
+      showMat showRat g.1 ++ " | " ++ showMat showRat g.2
+    | _, _, _, _ => "bad-op"
+  | "sgc" :: r =>
+    match kvNat r "k" with
+    | some k => if k = 0 then "bad-op" else
+      let n := 4 * k - 1
+      showMat showFloatBits (tabulate n n (sgcEntry0 (α := Float) k)) ++ " | " ++
+      showMat showFloatBits (tabulate n n (sgcEntry1 (α := Float) k))
+    | _ => "bad-op"
+  | "tgame" :: r =>
+    match kvNat r "n", kvNat r "k", kvFloats r "r" with
+    | some n, some k, some rs =>
+      if rs.length ≠ n * (n - 1) / 2 ∨ k = 0 ∨ k > n then "bad-op" else
+      let g := tournamentGame (α := Nat) n k (belowHalf rs)
+      showMat toString g.1 ++ " | " ++ showMat toString g.2
+    | _, _, _ => "bad-op"
+  | "uv" :: r =>
+    match kvNat r "n", kvNats r "ones" with
+    | some n, some ones => if ones.length ≠ n ∨ ones.any (· ≥ n) then "bad-op" else
+      showMat toString (uvPlain (α := Nat) n ones)
+    | _, _ => "bad-op"
+  | "uvavoid" :: r =>
+    match kvNat r "n", kvFloatMat r "p1", kvNats r "draws" with
+    | some n, some P, some draws =>
+      if n < 2 then "ERR:ValueError"
+      else if P.length ≠ n ∨ P.any (fun row => row.length ≠ n) then "bad-op"
+      else if uvMustRedraw n P then "redraw"
+      else match uvAvoidOnes P (List.range n) draws with
+        | some (ones, rest) => showMat toString (uvPlain (α := Nat) n ones) ++ " | " ++ toString rest.length
+        | none => "out-of-draws"
+    | _, _, _ => "bad-op"
+  | "saidx" :: r =>
+    match kvNat r "ns", kvNat r "na" with
+    | some ns, some na =>
+      let p := saIndices ns na
+      showList toString (p.map Prod.fst) ++ " | " ++ showList toString (p.map Prod.snd)
+    | _, _ => "bad-op"
+  | "crs" :: r =>
+    match kv r "seed" with
+    | some s =>
+      let sd : Option Seed := match s with
+        | "none" => some .none | "int" => some .int | "rs" => some .randomState
+        | "gen" => some .generator | "other" => some .other | _ => Option.none
+      match sd with
+      | some sd => match checkRandomState sd with
+        | .global => "global" | .fresh => "fresh" | .same => "same" | .valueError => "ERR:ValueError"
+      | Option.none => "bad-op"
+    | _ => "bad-op"
+  | _ => "bad-op"
 
 end QE.C18
